@@ -146,7 +146,9 @@ Theorem C04_cycle_loop_compiled_runs_as_its_source_says :
 Proof. exact cycle_loop_simulation. Qed.
 Print Assumptions C04_cycle_loop_compiled_runs_as_its_source_says.
 
-(* The loops over lights in the compiled code: `repeat all as x`, `repeat group as g`, `repeat location as l`, each with or without a
+(* The loops over lights in the compiled code: `repeat all as x`, `repeat group as g`, `repeat location as l` and
+   `repeat in <lights, groups, locations joined by and> as x` (the sources are compiled last to first, so the names of the first source end on
+   top; a single light is any value, a group or location contributes its members in name order), each with or without a
    `with v from a to b` / `with v cycle [start]` clause, have the shape [light_form]: LOOP; the scan that pushes every name -- DISC
    and DNEXT walk the sorted list from its last name to its first, so the first name ends on top -- and counts them; the `with` code;
    the test of the counter; POP x; the body; the count-down and the step of the `with` variable; END_LOOP ... *)
@@ -162,6 +164,11 @@ Theorem C04_repeat_location_is_a_light_loop : forall rt mt x w, plain_with_opt m
   light_form rt mt (LLocations x w) x (with_ov rt mt w) (scan_pre rt mt OD_LOCATION (PReg R_RESULT) w).
 Proof. exact llocations_form. Qed.
 Print Assumptions C04_repeat_location_is_a_light_loop.
+
+Theorem C04_repeat_in_is_a_light_loop : forall rt mt srcs x w, forallb (plain_src mt) srcs = true -> plain_with_opt mt w = true ->
+  light_form rt mt (LIn srcs x w) x (with_ov rt mt w) (lin_pre rt mt srcs w).
+Proof. exact lin_form. Qed.
+Print Assumptions C04_repeat_in_is_a_light_loop.
 
 (* ... and every loop of that shape, its body made of the covered statements (it may break -- the names not yet visited go with the loop
    frame -- and call routines, but not return), run on the machine model, binds x to each name exactly once in name order and ends where
